@@ -25,7 +25,7 @@ Proof.
   pose proof (run_refines ops s0 _ HR) as H.
   assert (Hsz : ssize s0 = size) by (unfold s0; destruct fork; reflexivity). rewrite Hsz in H.
   destruct (mrun s0 ops) as [s obs]. destruct (srun size (fun _ => None) ops) as [m obs'].
-  cbn in H. destruct H as [[Hs Ha] Ho]. auto.
+  cbn in H. destruct H as ([Hs Ha] & Ho & _). auto.
 Qed.
 
 (* Compaction never changes the contents, whatever order Go's map iteration takes. *)
